@@ -1,6 +1,7 @@
 package main
 
 import (
+	"bufio"
 	"bytes"
 	"encoding/json"
 	"fmt"
@@ -25,6 +26,7 @@ type cliSym struct {
 
 type cliCase struct {
 	Script []string `json:"script"`
+	Ch     []any    `json:"ch"`
 	Text   []cliSym `json:"text"`
 	Out    []struct {
 		Q       int   `json:"q"`
@@ -201,6 +203,20 @@ func cmdCliReplay(a args) {
 	dir := a.str("dir", os.TempDir())
 	seed := int64(a.int("seed", 1))
 	sample := a.int("sample", 1) // run every n-th case
+	// every run is also written as an observation for TLC (TraceCli.tla judges it with IoJudge)
+	var tw, sw *bufio.Writer
+	if tp := a.str("trace", ""); tp != "" {
+		tf, err := os.Create(tp)
+		if err != nil {
+			fatal(err)
+		}
+		sf, err := os.Create(a.str("side", tp+".side"))
+		if err != nil {
+			fatal(err)
+		}
+		tw, sw = bufio.NewWriterSize(tf, 1<<20), bufio.NewWriterSize(sf, 1<<20)
+		defer func() { tw.Flush(); sw.Flush(); tf.Close(); sf.Close() }()
+	}
 	var mu sync.Mutex
 	var wg sync.WaitGroup
 	sem := make(chan struct{}, 16)
@@ -253,6 +269,20 @@ func cmdCliReplay(a args) {
 				"expected_stdout": want.String(), "real_failures": c.RealFails}
 			if id%2999 == 1 {
 				res.sample(map[string]any{"script": c.Script, "input": input, "stdout": r.stdout, "exit": r.exit})
+			}
+			if tw != nil && !r.timedOut && len(c.Ch) > 0 {
+				obs := cliObs{Blocks: cliBlocksOf(r.stdout, cliCandidates(c.Script, stmts)), ErrLines: nonEmptyLines(r.stderr)}
+				if r.exit != 0 {
+					obs.Exit = 1
+				}
+				io := []any{"stdin", 0, 0, "none", "stdout"} // no fault: the channel does not matter to the judge
+				rec, _ := json.Marshal(map[string]any{"id": id, "ch": c.Ch, "io": io, "obs": obs})
+				tw.Write(rec)
+				tw.WriteByte('\n')
+				run := cliIoRun{Stmts: stmts, Halves: halves, Case: cliIoCase{Script: c.Script, Text: c.Text, Ch: c.Ch, Io: io}}
+				side, _ := json.Marshal(map[string]any{"id": id, "run": run, "obs": obs, "stdout": r.stdout, "stderr": r.stderr})
+				sw.Write(side)
+				sw.WriteByte('\n')
 			}
 			why := ""
 			switch {
